@@ -35,7 +35,7 @@ func init() {
 			{PkgPath: goosePkg, Func: "verifC04Order", Opt: big, Replay: "model"},
 		},
 		Covers: []string{"c04/order/acyclic", "c04/order/cyclic"},
-		Bounds: "declaration-ordering kernel: N ≤ 3 (quick) / 4 (thorough) declarations, every directed dependency relation (cyclic ones included), an optional unresolvable dependency, every split over ≤ 2 files",
+		Bounds: "declaration-ordering kernel: N ≤ 3 (quick) / 4 (thorough) declarations, every directed dependency relation (cyclic ones included), an optional unresolvable dependency, every split over ≤ 2 files; reference corpus: 29 reference kinds × 4 layouts + 2 scale layouts (65 600 filler declarations) through the real goose",
 		Assumptions: []string{
 			"Ctx.maybeDecls (the AST translator proper) is replaced by a stub that reports names/dependencies as dictated by the symbolic structure: what is decided is the ordering/emission kernel (Decls, depTracker), not the recording of dependencies at reference sites",
 		},
